@@ -531,7 +531,6 @@ def _b_print(ex, st, args, kwargs, node, spec):
     """print(...) to a file: counted in the ghost variable $nprinted; the arguments are kept in $lastprint."""
     if "file" in kwargs:
         st.env["$nprinted"] = st.env.get("$nprinted", z3.IntVal(0)) + 1
-        st.env["$lastprint"] = TupV(args)
     return None
 
 
